@@ -5,7 +5,7 @@ TARGETS = {
     "c19_io": dict(src="props/c19_io.cpp", flavors=["gcc", "asan", "fuzz"], asan_div=3),
     # the same TU built by g++ with ASan+UBSan: bin/check runs enumerators only in the "gcc" flavor, so the exhaustive
     # single-fault enumeration gets its sanitizer pass through this second target (only the fault prop/enumerator run here)
-    "c19_io_san": dict(src="props/c19_io.cpp", flavors=["gcc"], flags=_SAN),
+    "c19_io_san": dict(src="props/c19_io.cpp", flavors=["gcc"], flags=_SAN + ["-DC19_FAULT_ONLY"]),
 }
 
 PROPS = {
@@ -14,8 +14,8 @@ PROPS = {
         only_props={"c19_io_san": ["fault"]},
         has_enum=True,
         enum_shards={"single_faults": {"quick": 8, "thorough": 16}},
-        fuzz=[dict(target="c19_io", prop="fuzz_edits", quick_runs=20000, thorough_runs=2000000, thorough_jobs=4, max_len=256, seed_corpus=["fuzz/corpus/c19_edits"]),
-              dict(target="c19_io", prop="fuzz_raw", quick_runs=20000, thorough_runs=2000000, thorough_jobs=4, max_len=1024, seed_corpus=["fuzz/corpus/c19_raw"])],
+        fuzz=[dict(target="c19_io", prop="fuzz_edits", quick_runs=20000, thorough_runs=800000, thorough_jobs=4, max_len=256, seed_corpus=["fuzz/corpus/c19_edits"]),
+              dict(target="c19_io", prop="fuzz_raw", quick_runs=20000, thorough_runs=400000, thorough_jobs=4, max_len=1024, seed_corpus=["fuzz/corpus/c19_raw"])],
         level="fault_enumeration",
         rule="round trips: tape-decoded matrices (0..30 rows, empty rows/dims, 1x1, rectangular, sorted and unsorted rows) and dense arrays with values from all finite classes "
              "(signed zero, denormals, extreme exponents, random bit patterns, 17-digit, limits; float, complex<double>, int, int64; NaN/Inf payloads in the binary format) written by mm_write / io::write "
